@@ -204,6 +204,7 @@ type LoopRec struct {
 	CondT     Term    // for-loop condition term at the head (nil for range)
 	Init      map[types.Object]Term
 	Post      ast.Stmt
+	PostStep  map[types.Object]int64 // a post statement synthesised by a normalisation (Post == nil): these counters advance by that much
 	HeadEnv   map[types.Object]Term
 	HeadEpoch int
 	Quiet     bool // no iteration writes memory: the loop body sees the memory state of the loop's entry
